@@ -150,7 +150,7 @@ Definition print_weight (t : term) : Z := 1 + (if needs_scrolling t then snd (sc
 Definition rep_c (t : term) (c : cell) (n : Z) := iter_cost_res n (fun x => print_char x c) print_weight t.
 
 (* ---- one CSI final byte (no intermediate): outcome and cost ----------------------------------------------------------------------- *)
-Definition out_grow (t : term) (o : outcome) : Z := match o with OOk m | OErr m => grow t (tm m) | _ => 0 end.
+Definition out_grow (t : term) (o : outcome) : Z := match o with OOk m | OErr m | ODeep m => grow t (tm m) | OPanic _ => 0 end.
 Definition one (t : term) (o : outcome) (k : Z) : outcome * cost := (o, mkCost 1 k (out_grow t o)).
 Definition zl (a b : Z) : Z := zlen (zrange a b).
 
@@ -273,8 +273,9 @@ Fixpoint hex_max_rep (s : list Z) (stt : hexst) (m : Z) : Z :=
     end
   end.
 
-(* ---- macro invocation: characters replayed, nesting included ([fuel] = nesting depth explored) ------------------------------------------- *)
-(* every `ESC [ id * z` inside a macro body replays macro id: count the characters fed through print_char *)
+(* ---- macro invocation: characters replayed, nesting included ------------------------------------------------------------------------------- *)
+(* every `ESC [ id * z` inside a macro body replays macro id: count the characters fed through print_char.
+   [fuel] = MAX_MACRO_NESTING - Parser::macro_nesting, the nesting levels the counter of invoke_macro_by_id still admits (Model/AnsiTok.v astep) *)
 Fixpoint find_invokes (body : list Z) : list Z :=            (* ids of the `ESC [ <digits> * z` occurrences (single number) *)
   match body with
   | 27 :: 91 :: r =>
@@ -290,13 +291,28 @@ Fixpoint find_invokes (body : list Z) : list Z :=            (* ids of the `ESC 
   | _ :: r => find_invokes r
   | [] => []
   end.
-Fixpoint macro_chars (fuel : nat) (ms : list (Z * list Z)) (id : Z) : option Z :=     (* None = nesting deeper than the fuel *)
+(* (characters fed through print_char - an upper bound when the chain is abandoned: the rest of each body is not replayed -,
+    the invocation ended in Err(MacroNestingTooDeep)): an invocation with the counter at the limit is refused before it replays
+   anything; the error ends the replay loop of every enclosing level, so invocations after it are not reached *)
+Fixpoint macro_chars (fuel : nat) (ms : list (Z * list Z)) (id : Z) : Z * bool :=
+  match lookup id ms with
+  | None => (0, false)
+  | Some body =>
+    match fuel with
+    | O => (0, true)
+    | S k => fold_left (fun (acc : Z * bool) i => if snd acc then acc else let r := macro_chars k ms i in (fst acc + fst r, snd r))
+                       (find_invokes body) (zlen body, false)
+    end
+  end.
+(* the code BEFORE the nesting limit (fix 2513579): no counter, the recursion ends only if the nesting does.
+   [fuel] = nesting depth explored, None = deeper than that *)
+Fixpoint macro_chars_nolimit (fuel : nat) (ms : list (Z * list Z)) (id : Z) : option Z :=
   match lookup id ms with
   | None => Some 0
   | Some body =>
     match fuel with
     | O => None
-    | S k => fold_left (fun acc i => match acc, macro_chars k ms i with Some a, Some b => Some (a + b) | _, _ => None end)
+    | S k => fold_left (fun acc i => match acc, macro_chars_nolimit k ms i with Some a, Some b => Some (a + b) | _, _ => None end)
                        (find_invokes body) (Some (zlen body))
     end
   end.
